@@ -70,6 +70,54 @@ def reach_noformat_body(origin: int, copy: int, n: int, m: int, kind: int) -> in
     return noformat_body_check(origin, copy, n, m, kind)
 
 
+def noformat_rename_check(origin, origin2, n, n2, m, rename, retarget):
+    """A no-format record serialised once (a first write), then its NO-FORMAT object renamed / moved to another origin,
+    or the record pointed at another object: the next serialisation opens with the CURRENT identity of its object."""
+    it = NoFormatItem(LenStr(n, 'old'), NoFormatSet(), origin_reference=origin)
+    other = NoFormatItem(LenStr(n2, 'new'), NoFormatSet(), origin_reference=origin2)
+    rec = NoFormatFrameData(it, BytesRope(Rope.source('payload', m)))
+    first = flat(rec._make_body_bytes())
+    want1 = [('b', v) for v in uvari_expect(origin) + [0, n]] + [('src', 'old', 0, n)]
+    if first[:len(want1)] != want1:
+        return 1
+    if retarget:
+        rec.no_format_object = other
+    else:
+        if rename:
+            it.name = LenStr(n2, 'new')
+        it.origin_reference = origin2
+    second = flat(rec._make_body_bytes())
+    if retarget or rename:
+        wname, wn = ('src', 'new', 0, n2), n2
+    else:
+        wname, wn = ('src', 'old', 0, n), n
+    want2 = [('b', v) for v in uvari_expect(origin2) + [0, wn]] + [wname]
+    if second[:len(want2)] != want2:
+        return 2
+    rest = second[len(want2):]
+    if (m == 0 and len(rest) != 0) or (m > 0 and rest != [('src', 'payload', 0, m)]):
+        return 3
+    return 0
+
+
+def ob_noformat_rename(origin: int, origin2: int, n: int, n2: int, m: int, rename: bool, retarget: bool) -> int:
+    """
+    pre: 0 <= origin < 1073741824 and 0 <= origin2 < 1073741824 and 1 <= n <= 255 and 1 <= n2 <= 255
+    pre: 0 <= m <= 40000
+    post: _ == 0
+    """
+    return noformat_rename_check(origin, origin2, n, n2, m, rename, retarget)
+
+
+def reach_noformat_rename(origin: int, origin2: int, n: int, n2: int, m: int, rename: bool, retarget: bool) -> int:
+    """
+    pre: 0 <= origin < 1073741824 and 0 <= origin2 < 1073741824 and 1 <= n <= 255 and 1 <= n2 <= 255
+    pre: 0 <= m <= 40000
+    post: _ != 0
+    """
+    return noformat_rename_check(origin, origin2, n, n2, m, rename, retarget)
+
+
 def wit_noformat_short(n: int, m: int) -> bool:
     """
     Reference + payload shorter than 12 bytes.
